@@ -412,8 +412,7 @@ func (p *Chip) AssertIsEqual(x, y Variable) {
 func (p *Chip) rangeCheckerCheck(x frontend.Variable, nbBits int) {
 	verifEvent(p.api, "rcreq", int(p.rangeCheckerType), x, nbBits)
 	switch p.rangeCheckerType {
-	case NATIVE_RANGE_CHECKER:
-	case BIT_DECOMP_RANGE_CHECKER:
+	case NATIVE_RANGE_CHECKER, BIT_DECOMP_RANGE_CHECKER:
 		p.rangeChecker.Check(x, nbBits)
 	case COMMIT_RANGE_CHECKER:
 		p.collectedMutex.Lock()
